@@ -795,6 +795,29 @@ func (vc *VC) store(st *State, addr string, t types.Type, val string) {
 	st.heap[c] = nh
 }
 
+// storeZero writes the zero value of t at addr, element by element (no constant-array terms)
+func (vc *VC) storeZero(st *State, addr string, t types.Type) {
+	switch u := t.Underlying().(type) {
+	case *types.Struct:
+		for i := 0; i < u.NumFields(); i++ {
+			vc.storeZero(st, vc.fieldAddr(t, i, addr), u.Field(i).Type())
+		}
+		return
+	case *types.Array:
+		n := int(u.Len())
+		if n > 32 {
+			vc.unsupported = append(vc.unsupported, "zeroing of large array")
+			vc.havocAll(st, "large array")
+			return
+		}
+		for i := 0; i < n; i++ {
+			vc.storeZero(st, vc.ea(addr, fmt.Sprint(i)), u.Elem())
+		}
+		return
+	}
+	vc.store(st, addr, t, vc.zero(t))
+}
+
 // allocate a fresh reference
 func (vc *VC) alloc(st *State, hint string) string {
 	r := vc.freshConst(hint, "Int")
